@@ -367,6 +367,12 @@ def r3_typed(fb, chk, code, row, f, outs, sym, key):
 
         def cmp_has(op, lsub, rconst=None, rsub=None):
             for a in o.atoms:
+                # `match x { C => .. }` yields a membership atom instead of a comparison
+                if a[0] == "in" and rconst is not None and isinstance(a[1], tuple) and lsub in show(a[1]):
+                    if op == "Eq" and not a[3] and set(a[2]) == {rconst}:
+                        return True
+                    if op == "Ne" and a[3] and set(a[2]) == {rconst}:
+                        return True
                 if a[0] == "cmp" and a[1] == op:
                     for x, y in ((a[2], a[3]), (a[3], a[2])):
                         if lsub in show(x):
